@@ -52,7 +52,16 @@ fn tail_inputs() -> J {
     J::Null
 }
 #[cfg(rash_verif)]
+fn usages_read() -> J {
+    rash_core::docopt::VERIF_USAGES.with(|t| json!(*t.borrow()))
+}
+#[cfg(not(rash_verif))]
+fn usages_read() -> J {
+    J::Null
+}
+#[cfg(rash_verif)]
 fn clear_trace() {
+    rash_core::docopt::VERIF_USAGES.with(|t| *t.borrow_mut() = None);
     rash_core::docopt::VERIF_EXPANDED_USAGES.with(|t| t.borrow_mut().clear());
     rash_core::docopt::VERIF_TAIL_INPUTS.with(|t| *t.borrow_mut() = (Vec::new(), Vec::new()));
 }
@@ -78,9 +87,9 @@ pub fn run(case: &J) -> J {
         // the expanded usages in the order the last parse tried them (hook, --cfg rash_verif)
         let us = trace();
         if us.is_empty() {
-            return json!({"outs": outs});     // parse returned before its last stage
+            return json!({"outs": outs, "usages_read": usages_read()});     // parse returned before its last stage
         }
-        return json!({"outs": outs, "usages": us, "tail": tail_inputs()});
+        return json!({"outs": outs, "usages": us, "tail": tail_inputs(), "usages_read": usages_read()});
     }
     json!({"outs": outs})
 }
